@@ -2,4 +2,6 @@
 
 
 def register(check):
-    pass
+    check('C10', 'fault_enumeration', 'runtime monitor: scripted-socket fault enumeration with differential oracle',
+          'The real send_msg/recv_msg pair is executed over a scripted transport: every segmentation of short streams (exhaustive), every single and double cut and every truncation offset of mid-size streams, seeded cuts/truncations of streams up to ~1 MB, FIN and RST endings; thorough adds real socketpairs with a dribbling sender. Oracle: message equality, ConnectionClosedError on truncation, logical spin bound.',
+          'Transport model: recv(n) returns 1..n bytes, then b"" or ConnectionResetError. Held on the enumerated/sampled cuts only; payload classes are generated, not all picklable values.')
